@@ -425,3 +425,29 @@ func (n *Node) Clone() *Node {
 	}
 	return m
 }
+
+// DuplicateAttr returns the qualified name (as written) of an attribute that
+// occurs twice in one start tag of b ("" if none).  encoding/xml's decoder
+// does not check this well-formedness constraint (XML 1.0 WFC: Unique Att
+// Spec); every conforming parser does.
+func DuplicateAttr(b []byte) string {
+	d := xml.NewDecoder(bytes.NewReader(b))
+	for {
+		tok, err := d.RawToken()
+		if err != nil {
+			return ""
+		}
+		if se, ok := tok.(xml.StartElement); ok {
+			seen := map[xml.Name]bool{}
+			for _, a := range se.Attr {
+				if seen[a.Name] {
+					if a.Name.Space != "" {
+						return a.Name.Space + ":" + a.Name.Local
+					}
+					return a.Name.Local
+				}
+				seen[a.Name] = true
+			}
+		}
+	}
+}
